@@ -205,7 +205,9 @@ func doParse(r *http.Request, parser Parser) error {
 	//var promises []chan error
 	var promises []*promise.Promise[uint32]
 	var err error = nil
-	res := parser(r.Context(), reader, FPCache.DB(node))
+	fpCache := FPCache.DB(node)
+	var fpKeys []uint64
+	res := parser(r.Context(), reader, fpCache)
 	for response := range res {
 		if response.Error != nil {
 			go func() {
@@ -214,6 +216,7 @@ func doParse(r *http.Request, parser Parser) error {
 			}()
 			return response.Error
 		}
+		fpKeys = append(fpKeys, response.TimeSeriesFpKeys...)
 		promises = append(promises,
 			doPush(response.TimeSeriesRequest, service.INSERT_MODE_SYNC, tsService),
 			doPush(response.SamplesRequest, service.INSERT_MODE_SYNC, splService),
@@ -228,6 +231,10 @@ func doParse(r *http.Request, parser Parser) error {
 		if err != nil {
 			return err
 		}
+	}
+	// every series row of the request is stored: from now on they need not be sent again
+	for _, k := range fpKeys {
+		fpCache.CheckAndSet(k)
 	}
 	return nil
 }
